@@ -122,6 +122,8 @@ def run(ctx):
         if v.get("oversize"):
             problems.append(("C07:message-exceeds-grpc-limit", f"a message handed to the stream exceeds grpc.MaxMessageSizeInBytes (the real stream refuses it: "
                              f"send error, the peer never gets the reply): {v['oversize'][:3]}"))
+        if v.get("changed"):
+            problems.append(("C07:queued-message-changed-after-send", f"a message queued by Send is modified afterwards (the stream writes other bytes than the handler sent): {v['changed'][:3]}"))
         for sig, what in problems:
             n_bad += 1
             per_sig[sig] += 1
